@@ -5,7 +5,10 @@ use std::io::{self, BufRead, Write};
 
 mod action;
 mod common;
+mod glue;
+mod indicator;
 mod method;
+mod vtree;
 mod window;
 
 fn main() {
@@ -26,6 +29,8 @@ fn main() {
 			"window" => window::run(&mut toks),
 			"action" => action::run(&mut toks),
 			"method" => method::run(&mut toks),
+			"indicator" => indicator::run(&mut toks),
+			"glue" => glue::run(&mut toks),
 			other => panic!("unknown suite {other}"),
 		};
 		write!(out, "{id}").unwrap();
